@@ -37,8 +37,9 @@ func genROM(seed int64) []byte {
 	// cartridge kinds: 0 and 3 ROM-only, 1 MBC1 with no RAM declared (the emulator still provides one bank), 2 MBC3+TIMER+RAM
 	variant := int(seed % 4)
 	rom := make([]byte, 0x8000)
-	for _, v := range []int{0x40, 0x48, 0x50, 0x58, 0x60} {
-		rom[v] = 0xd9 // RETI
+	for i, v := range []int{0x40, 0x48, 0x50, 0x58, 0x60} {
+		// each handler leaves its mark (which one ran last shows the order in which simultaneous requests were served)
+		copy(rom[v:], []byte{0xf5, 0x3e, byte(i + 1), 0xe0, 0x81, 0xf1, 0xd9}) // PUSH AF; LD A,i; LDH (81),A; POP AF; RETI
 	}
 	copy(rom[0x100:], []byte{0x00, 0xc3, 0x50, 0x01})
 	switch variant {
@@ -156,7 +157,7 @@ func genROM(seed int64) []byte {
 		case 11, 12:
 			// what the CPU sees of the other components in this very cycle: LY, STAT, DIV, TIMA stored to work RAM
 			a := 0xc000 + rng.Intn(0x1e00)
-			emit(0xf0, []int{0x44, 0x41, 0x04, 0x05, 0x0f}[rng.Intn(5)], 0xea, a&0xff, a>>8)
+			emit(0xf0, []int{0x44, 0x41, 0x04, 0x05, 0x0f, 0x10, 0x26}[rng.Intn(7)], 0xea, a&0xff, a>>8)
 		default:
 			for k := rng.Intn(12); k > 0; k-- {
 				emit([]int{0x00, 0x04, 0x0c, 0x3c, 0x87, 0xa8}[rng.Intn(6)])
